@@ -5,6 +5,7 @@
 Init0 == [r |-> "r0", o |-> "o0"]
 Pool == [ same    |-> Init0,
           A       |-> [r |-> "rA", o |-> "o0"],
+          A2      |-> [r |-> "rA2", o |-> "o0"],    \* A's routes with other hosts / backends
           B       |-> [r |-> "rB", o |-> "o0"],
           inv     |-> [r |-> "rBad", o |-> "o0"],   \* a route without backend
           other   |-> [r |-> "r0", o |-> "o1"],     \* bind changed
